@@ -86,6 +86,9 @@ ASSUMPTIONS = [
     "a subscriber that is inside a crash window while a topic message is due is excused; replays (is_replay) are not "
     "counted as deliveries",
     "committed offsets are observed in ConsumerGroup._committed_offsets (the anchored state) after every engine event",
+    "schedule_redelivery() answering None for an unacknowledged in-flight message under its limit is legitimate only "
+    "while a redelivery timer previously handed out for that message has not fired yet (the watchdog then asks again "
+    "one ack-timeout later); with no timer outstanding it is a refused redelivery",
 ]
 EXPECTED_PROBES = [
     "probe.q_redelivered", "probe.q_dead_lettered", "probe.q_late_answer", "probe.q_crash_lost_delivery",
